@@ -128,12 +128,21 @@ func judge(c Case, w *vkit.W) {
 			w.Fail(c, "nonzero-result-with-error", fmt.Sprintf("%s(%q): %v with result %v", path, want, err, got))
 		}
 	}
-	got, err := date.DefaultParser(want, 0)
-	in("DefaultParser[string]", got, err)
-	got, err = date.DefaultParser([]byte(want), 0)
-	in("DefaultParser[[]byte]", got, err)
+	var got date.Date
+	var err2 error
+	if w.Flip() {
+		got, err2 = date.DefaultParser(want, 0)
+		in("DefaultParser[string]", got, err2)
+		got, err2 = date.DefaultParser(w.Scratch(want), 0) // a reused caller buffer
+		in("DefaultParser[[]byte]", got, err2)
+	} else {
+		got, err2 = date.DefaultParser(w.Scratch(want), 0)
+		in("DefaultParser[[]byte]", got, err2)
+		got, err2 = date.DefaultParser(want, 0)
+		in("DefaultParser[string]", got, err2)
+	}
 	var u date.Date
-	err = u.UnmarshalText([]byte(want))
+	err = u.UnmarshalText(w.Scratch(want))
 	in("UnmarshalText", u, err)
 	if !c.Basic {
 		got, err = date.DefaultParser(want, date.RuleDisableBasic)
@@ -142,7 +151,7 @@ func judge(c Case, w *vkit.W) {
 	if c.Full {
 		got, err = date.DefaultParser(S(want), 0)
 		in("DefaultParser[named string]", got, err)
-		got, err = date.DefaultParser(B(want), 0)
+		got, err = date.DefaultParser(B(w.Scratch(want)), 0)
 		in("DefaultParser[named []byte]", got, err)
 		var jh jholder
 		err = json.Unmarshal([]byte(`{"d":"`+want+`","p":"`+want+`","l":["`+want+`"]}`), &jh)
